@@ -352,4 +352,22 @@ example :
 example : (sendGate false false true true none ((Bucket.new 3 1 1 0).allow 0).2 100000000).1 = .waitsUntil 333333334 := by
   decide +kernel
 
+/-- T1: the only place a limiter reservation is made is `limiterWait`, with the instant read under
+`sendLimiterMu`; the only place one is abandoned is its `cancel` closure, which re-reads the clock under
+the same lock (`CancelAt(time.Now())`, never the reservation's own stale instant: handing the token back
+at a stale instant moves the limiter's clock backwards and the interval in between is credited twice -
+the out-of-order-instant counterexample of this file). -/
+def idxL (l : List String) (x : String) : Nat := l.findIdx (· == x)
+
+theorem C20.src_reservation_instants :
+    Gen.limiterReserveSites = ["ratelimit_serial.go:limiterWait|now"] ∧
+    Gen.limiterCancelSites = ["ratelimit_serial.go:limiterWait|time.Now()"] ∧
+    idxL Gen.evLimiterWait "sendLimiterMu.Lock" < idxL Gen.evLimiterWait "l.ReserveN" ∧
+    Gen.evLimiterWait.getD (idxL Gen.evLimiterWait "l.ReserveN" - 1) "" = "time.Now" ∧
+    Gen.evLimiterWait.getD (idxL Gen.evLimiterWait "l.ReserveN" + 1) "" = "sendLimiterMu.Unlock" ∧
+    Gen.evLimiterWait.getD (idxL Gen.evLimiterWait "r.CancelAt" - 1) "" = "time.Now" ∧
+    Gen.evLimiterWait.getD (idxL Gen.evLimiterWait "r.CancelAt" - 2) "" = "sendLimiterMu.Lock" ∧
+    Gen.evLimiterWait.getD (idxL Gen.evLimiterWait "r.CancelAt" + 1) "" = "sendLimiterMu.Unlock" := by
+  decide +kernel
+
 end Dht
